@@ -562,10 +562,46 @@ func RuleG2(c *Ctx) {
 		}
 	}
 	writes := map[*types.Var][]string{}
+	// named functions that run only under a sync.Once: every reference to them is an
+	// argument of (*sync.Once).Do
+	onceFuncs := map[*types.Func]bool{}
+	otherRefs := map[*types.Func]bool{}
+	c.P.Funcs(func(pk *pkgT, fd *ast.FuncDecl) {
+		info := pk.TypesInfo
+		doArgs := map[*ast.Ident]bool{}
+		ast.Inspect(fd.Body, func(n ast.Node) bool {
+			call, ok := n.(*ast.CallExpr)
+			if !ok {
+				return true
+			}
+			if f := Callee(info, call); f != nil && f.Name() == "Do" && f.Pkg() != nil && f.Pkg().Path() == "sync" {
+				for _, a := range call.Args {
+					if id, ok := ast.Unparen(a).(*ast.Ident); ok {
+						if g, ok := info.ObjectOf(id).(*types.Func); ok {
+							onceFuncs[g] = true
+							doArgs[id] = true
+						}
+					}
+				}
+			}
+			return true
+		})
+		ast.Inspect(fd.Body, func(n ast.Node) bool {
+			if id, ok := n.(*ast.Ident); ok && !doArgs[id] {
+				if g, ok := info.Uses[id].(*types.Func); ok {
+					otherRefs[g] = true
+				}
+			}
+			return true
+		})
+	})
 	c.P.Funcs(func(pk *pkgT, fd *ast.FuncDecl) {
 		info := pk.TypesInfo
 		if fd.Name.Name == "init" && fd.Recv == nil {
 			return
+		}
+		if self, _ := info.Defs[fd.Name].(*types.Func); self != nil && onceFuncs[self] && !otherRefs[self] {
+			return // runs once, under the Once: the same as the closure form
 		}
 		// once.Do closures
 		onceLits := map[*ast.FuncLit]bool{}
